@@ -285,7 +285,12 @@ def ops(backend, shape, internal, mask, k0, kind, j0, j1, v0, v1, q0, q1, q2, sl
         arr = _mk(backend, shape, internal, mask)
         ref = Ref(shape, internal, mask)
         k1 = (j0, j1)[: len(shape)]
-        for k, v in ((k0, v0), (k1, v1)):
+        for step, (k, v) in enumerate(((k0, v0), (k1, v1))):
+            if step == 1 and reopen == 2 and backend != "file":
+                # persist between the two dumps (and again afterwards): the second persist must not be skipped
+                d0 = L.scratch_dir()
+                arr.folder = __import__("pathlib").Path(d0) / "sub"
+                arr.persist()
             val = _value(v, internal)
             try:
                 ref.dump(k, val)
@@ -303,14 +308,52 @@ def ops(backend, shape, internal, mask, k0, kind, j0, j1, v0, v1, q0, q1, q2, sl
             if backend == "file":
                 arr = FileArray(arr.folder, shape, internal or None, mask if internal else None)
             else:
-                d = L.scratch_dir()
-                arr.folder = __import__("pathlib").Path(d) / "sub"
+                if reopen != 2:
+                    d = L.scratch_dir()
+                    arr.folder = __import__("pathlib").Path(d) / "sub"
                 arr.persist()
                 arr = BACKENDS[backend](arr.folder, shape, internal or None, mask if internal else None)
         key = [q0, q1, q2][: len(mask)]
         if slpos and slpos <= len(key):
             key[slpos - 1] = slice(None)
         return _read_cmp(arr, ref, kind, tuple(key), lin)
+    finally:
+        L.cleanup_dirs()
+
+
+def none_value(backend, shape, j0, j1, reopen):
+    """None is a value like any other: an element holding None is present (unmasked) everywhere"""
+    L.reset()
+    try:
+        with NoTracing():
+            from engine import shims
+
+            shims.TOK.clear()
+        j0, j1 = L.concretize(j0, 0, 3), L.concretize(j1, 0, 3)
+        arr = _mk(backend, shape, (), tuple(True for _ in shape))
+        key = (j0, j1)[: len(shape)]
+        arr.dump(key, None)
+        if reopen:
+            if backend == "file":
+                arr = FileArray(arr.folder, shape)
+            else:
+                d = L.scratch_dir()
+                arr.folder = __import__("pathlib").Path(d) / "sub"
+                arr.persist()
+                arr = BACKENDS[backend](arr.folder, shape)
+        lin = sum(k * s for k, s in zip(key, B.shape_to_strides(shape))) if False else list(L.indices(shape)).index(tuple(key))
+        if not arr.has_index(lin) or arr.get_from_index(lin) is not None:
+            return fail("has_index / get_from_index of a None element")
+        if arr[key] is not None:
+            return fail("__getitem__ of a None element")
+        for a in (arr.to_array(), arr.to_array(splat_internal=False)):
+            mk_ = np.ma.getmaskarray(a)
+            for idx in L.indices(shape):
+                if bool(mk_[idx]) != (idx != tuple(key)):
+                    return fail("an element holding None is reported as missing by to_array")
+        if bool(arr.mask.data[tuple(key)]) or arr.mask_linear()[lin]:
+            return fail("mask of a None element")
+        return True
     finally:
         L.cleanup_dirs()
 
@@ -476,6 +519,8 @@ def obligations(tier):  # noqa: C901
                canaries=("strides",) if (be == "file" and gid == "e23") else ())  # fmt: skip
             mk("reopen", [jpre, jfix, Z, "lin == 0"], "to_array", 0, True, 90, "persist (dict) / re-instantiate (file), then to_array")
             mk("reopen_mask", [jpre, jfix, Z, "lin == 0"], "mask", 0, True, 90, "persist/re-instantiate, then mask + mask_linear")
+            if be != "file":
+                mk("repersist", [jpre, jfix, Z, "lin == 0"], "to_array", 0, 2, 90, "dump, persist, dump (possibly the same key), persist, reopen, to_array")
             # negative / out-of-range dump keys
             npre = " and ".join(f"{-n - 1} <= j{a} <= {n}" for a, n in enumerate(shape))
             mk("dumpneg", [npre, jfix, Z, "lin == 0"], "to_array", 0, False, 90, "second dump key symbolic incl. negative and out-of-range by one")
@@ -489,6 +534,19 @@ def obligations(tier):  # noqa: C901
                     timeout=60,
                     flags=flags,
                     bounds="read key out of range by one on a symbolic axis (either side), or of rank -1/+1",
+                )
+            )
+    for be in backends:
+        for shape in ((2,), (2, 3)):
+            obs.append(
+                Ob(
+                    f"none_{be}_{'x'.join(map(str, shape))}",
+                    [("j0", I), ("j1", I), ("reopen", "bool")],
+                    [" and ".join(f"0 <= j{a} < {n}" for a, n in enumerate(shape)) + (" and j1 == 0" if len(shape) == 1 else "")],
+                    f"H.none_value({be!r}, {shape!r}, j0, j1, reopen)",
+                    timeout=90,
+                    flags=("tokpickle",),
+                    bounds=f"{be} shape {shape}: an element whose value is None, optional persist/reopen",
                 )
             )
     return obs
